@@ -237,8 +237,10 @@ func exerciseMethod(t *rapid.T, e routerEntry, mi methodInfo) string {
 		t.Fatalf("%s: %v", full, err)
 	}
 	req := lib.GenMessage(t, "req", reqProto, mgen)
-	registered := []string{"dev/1", "dev/2"}
-	target := rapid.SampledFrom([]string{"dev/1", "dev/2", "unknown", ""}).Draw(t, "target")
+	// two registered names that differ as little as names can (case, surrounding space, a prefix of the other) now and then
+	pair := rapid.SampledFrom([][2]string{{"dev/1", "dev/2"}, {"dev/1", "dev/2"}, {"dev/1", "DEV/1"}, {"dev", "dev "}, {"a", "a/b"}, {" ", "x"}, {"é", "e"}}).Draw(t, "names")
+	registered := pair[:]
+	target := rapid.SampledFrom([]string{pair[0], pair[1], pair[0], pair[1], "unknown", "", strings.ToUpper(pair[0]) + "!", " " + pair[1]}).Draw(t, "target")
 	if !setName(req, target) {
 		return "" // no name field: cannot be routed by name
 	}
@@ -266,12 +268,12 @@ func exerciseMethod(t *rapid.T, e routerEntry, mi methodInfo) string {
 		r.(router.Router).Add(n, e.NewClient(c))
 	}
 	reqBytes, _ := proto.MarshalOptions{Deterministic: true}.Marshal(req)
-	known := target == "dev/1" || target == "dev/2"
+	known := target == pair[0] || target == pair[1]
 	other := func() *fakeConn {
-		if target == "dev/1" {
-			return conns["dev/2"]
+		if target == pair[0] {
+			return conns[pair[1]]
 		}
-		return conns["dev/1"]
+		return conns[pair[0]]
 	}
 	desc := fmt.Sprintf("%s %s target=%q messages=%d final=%v header=%v trailer=%v callerFailAt=%d", e.Name, full, target, len(sc.messages), sc.final, sc.header, sc.trailer, sc.callerFailAt)
 
